@@ -25,7 +25,12 @@ Inductive shape :=
 | SStartVar | SSpread | SCallVar (minargs : nat) | SEndVar
 | SUnknown.
 
-Inductive mode := MGlobal | MFunc.
+(* MGlobal: runs to the end of the code with an empty operand stack (global and eval code);
+   MInit: class field initialiser, entered with the instance as its only operand and left the same way
+   (func.go _initFields); MFunc: function body: the `this` slot stack[sb] is the only operand at entry (the
+   prologue may peek it: initStash right after enterFunc), left by ret with at least the result above it and no
+   variadic marker below (ret resets sp to the frame base, so block locals may still be there) *)
+Inductive mode := MGlobal | MFunc | MInit.
 
 Record seg := mkseg { sn : nat; sx : bool }.
 
@@ -87,11 +92,18 @@ Definition core (sh : shape) (pc loc : nat) (sg : list seg) : option (list alt) 
       | None => None
       end
   | SEnter p ss =>
+      (* stack locals of a block / function are ordinary slots above the current operands: the compiler
+         lets a block adopt operands as locals (catch parameter, switch discriminant: the leaveBlock is
+         then larger than the enterBlock), so locals and operands are counted together *)
       match pop_top p sg with
-      | Some sg' => Some [(S pc, loc + ss, sg')]
+      | Some sg' => Some [(S pc, loc, push_top ss sg')]
       | None => None
       end
-  | SLeave ss => if ss <=? loc then Some [(S pc, loc - ss, sg)] else None
+  | SLeave ss =>
+      match pop_top ss sg with
+      | Some sg' => Some [(S pc, loc, sg')]
+      | None => None
+      end
   | SStartVar => Some [(S pc, loc, mkseg 0 true :: sg)]
   | SSpread =>
       match sg with
@@ -104,10 +116,16 @@ Definition core (sh : shape) (pc loc : nat) (sg : list seg) : option (list alt) 
       | _ => None
       end
   | SEndVar =>
+      (* drops the slot below the top: inside a segment (class definitions use it that way), or the
+         variadic marker when the segment holds exactly the call result *)
       match sg with
-      | s1 :: s2 :: r =>
-          if (sn s1 =? 1) && sx s1 then Some [(S pc, loc, mkseg (sn s2 + 1) (sx s2) :: r)] else None
-      | _ => None
+      | s1 :: r =>
+          if 2 <=? sn s1 then Some [(S pc, loc, mkseg (sn s1 - 1) (sx s1) :: r)]
+          else match r with
+               | s2 :: r' => if (sn s1 =? 1) && sx s1 then Some [(S pc, loc, mkseg (sn s2 + 1) (sx s2) :: r')] else None
+               | [] => None
+               end
+      | [] => None
       end
   | _ => None
   end.
@@ -202,25 +220,26 @@ Definition asucc (code : list shape) (md : mode) (m : amap) (pc : nat) (s : asta
       end
   | SRet =>
       match md, a_segs s, a_ts s with
-      | MFunc, [sg], [] => if (sn sg =? 1) && sx sg then Some [] else None
+      | MFunc, [sg], [] => if (2 <=? sn sg) && sx sg then Some [] else None
       | _, _, _ => None
       end
   | _ => None
   end.
 
-Definition init_state : astate := mkA 0 [mkseg 0 true] [].
+Definition init_state (md : mode) : astate :=
+  mkA 0 [mkseg (match md with MGlobal => 0 | _ => 1 end) true] [].
 
 Definition final_ok (md : mode) (s : astate) : bool :=
   match md with
-  | MGlobal => astate_eqb s init_state
   | MFunc => false
+  | _ => astate_eqb s (init_state md)
   end.
 
 (* [check code md m]: m is an inductive invariant of the abstract machine that contains the entry state *)
 Definition check (code : list shape) (md : mode) (m : amap) : bool :=
   let len := length code in
   (length m =? S len)
-  && amem init_state (nth 0 m [])
+  && amem (init_state md) (nth 0 m [])
   && forallb (fun pc =>
        forallb (fun s =>
          if pc =? len then final_ok md s
@@ -231,7 +250,9 @@ Definition check (code : list shape) (md : mode) (m : amap) : bool :=
               end) (nth pc m []))
      (seq 0 (S len)).
 
-(* heights must also agree at joins (goja's compiler discipline; stricter than needed for safety) *)
+(* heights agree at joins: NOT required by [verify] -- with try/catch/finally goja's own semantics reaches the
+   code after a finally block with different heights (an exception raised in a finally block that was entered
+   normally is delivered to the sibling catch); reported as information only *)
 Definition consistent (m : amap) : bool :=
   forallb (fun l => match l with
                     | [] => true
@@ -269,13 +290,15 @@ Fixpoint iterate (fuel : nat) (code : list shape) (md : mode) (m : amap) : amap 
   end.
 
 Definition infer (code : list shape) (md : mode) : amap :=
-  iterate 40 code md ([init_state] :: repeat [] (length code)).
+  iterate 40 code md ([init_state md] :: repeat [] (length code)).
 
 Definition verify_mode (code : list shape) (md : mode) : bool :=
-  let m := infer code md in check code md m && consistent m.
+  check code md (infer code md).
 
 (* global code / eval code *)
 Definition verify (code : list shape) : bool := verify_mode code MGlobal.
+(* class field initialisers *)
+Definition verify_init (code : list shape) : bool := verify_mode code MInit.
 (* function bodies *)
 Definition verify_func (code : list shape) : bool := verify_mode code MFunc.
 
@@ -324,7 +347,8 @@ Definition step (code : list shape) (md : mode) (ch : choice) (st : cstate) : ou
   let len := length code in
   if pc st =? len then
     match md, frames st with
-    | MGlobal, [] => if (loc st =? 0) && list_eqb seg_eqb (segs st) [mkseg 0 true] then Done else Fault
+    | MFunc, _ => Fault
+    | _, [] => if (loc st =? 0) && list_eqb seg_eqb (segs st) (a_segs (init_state md)) then Done else Fault
     | _, _ => Fault
     end
   else if len <? pc st then Fault
@@ -387,14 +411,14 @@ Definition step (code : list shape) (md : mode) (ch : choice) (st : cstate) : ou
         end
     | SRet =>
         match md, segs st, frames st with
-        | MFunc, [sg], [] => if (sn sg =? 1) && sx sg then Done else Fault
+        | MFunc, [sg], [] => if (2 <=? sn sg) && sx sg then Done else Fault
         | _, _, _ => Fault
         end
     | _ => Fault
     end.
 
-Definition entry_state : cstate := mkC 0 0 [mkseg 0 true] [].
-Definition entry_ok (st : cstate) : Prop := st = entry_state.
+Definition entry_state (md : mode) : cstate := mkC 0 0 (a_segs (init_state md)) [].
+Definition entry_ok (md : mode) (st : cstate) : Prop := st = entry_state md.
 
 (* run for at most [fuel] steps under an arbitrary environment [orc] *)
 Fixpoint vm_run (fuel : nat) (code : list shape) (md : mode) (orc : nat -> choice) (st : cstate) : outcome :=
